@@ -102,8 +102,17 @@ def gen_mutants(only=None):
 
 
 def sh(cmd, cwd=None, timeout=1800):
-    p = subprocess.run(cmd, shell=True, cwd=cwd, stdout=subprocess.PIPE, stderr=subprocess.STDOUT, text=True, timeout=timeout)
-    return p.returncode, p.stdout
+    # own process group, so that a timeout can kill the whole tree (cargo -> test binaries)
+    p = subprocess.Popen(cmd, shell=True, cwd=cwd, stdout=subprocess.PIPE, stderr=subprocess.STDOUT, text=True,
+                         start_new_session=True)
+    try:
+        out, _ = p.communicate(timeout=timeout)
+    except subprocess.TimeoutExpired:
+        import signal
+        os.killpg(p.pid, signal.SIGKILL)
+        p.communicate()
+        raise
+    return p.returncode, out
 
 
 def setup_worker(i):
@@ -134,7 +143,6 @@ def run_mutant(w, m):
         try:
             rc, o = sh("cargo test --workspace --no-fail-fast --offline", cwd=f"{w}/repo", timeout=600)
         except subprocess.TimeoutExpired:
-            sh("pkill -f 'wt-does-not-exist' || true")
             res["status"] = "killed_by_suite"
             res["note"] = "the repository's own tests did not terminate within 10 minutes"
             return res
